@@ -163,7 +163,7 @@ DECODER_ASSUMPTIONS = [
     'the submission model regenerates sample/payload bytes from the same seeded generator that fed the API call',
 ]
 
-CHECKS['C01'] = [file_run('c01', 400, 30000, ['C01'])]
+CHECKS['C01'] = [file_run('c01', 1200, 30000, ['C01'])]
 LEVELS['C01'] = 'exploration'
 RULES['C01'] = 'case = generated writer program (1-3 FSR signals: type x definition class x first id x length class x partition class), closed, length and >=60 windows compared bit-for-bit with the submitted stream; distinct = distinct (type,def,first,len,partition,pattern) tuples of signals that accepted data'
 ASSUME['C01'] = DECODER_ASSUMPTIONS
@@ -173,27 +173,27 @@ LEVELS['C02'] = 'exploration'
 RULES['C02'] = 'case = one FSR signal of a summarisable type with enough samples for the target summary level; ~80 (start,increment,count) requests per case checked against long-double statistics of the submitted samples with the tolerances of DESIGN 4-C02; distinct = (type,def class,levels on disk,first id class,pattern,gap)'
 ASSUME['C02'] = ['requests on 64-bit types that need level 0 may return UNSUPPORTED_FILE (the reader cannot summarise 64-bit samples directly)', 'windows whose widened range contains gap fill or non-finite samples are skipped, as the statement excludes them']
 
-CHECKS['C09'] = [file_run('c09', 300, 20000, ['C09'])]
+CHECKS['C09'] = [file_run('c09', 1500, 20000, ['C09'])]
 LEVELS['C09'] = 'exploration'
 RULES['C09'] = 'case = one signal written with 1-6 gap/overlap events (classes g0..g8 / o0..o6 incl. larger than the 32 KiB fill scratch); length, windows and (floats) stored level-1 summaries compared with the fill / keep-first model; distinct = (type,def,first,event sequence)'
 ASSUME['C09'] = DECODER_ASSUMPTIONS
 
-CHECKS['C11'] = [file_run('c11', 200, 10000, ['C11'])]
+CHECKS['C11'] = [file_run('c11', 800, 10000, ['C11'])]
 LEVELS['C11'] = 'exploration'
 RULES['C11'] = 'case = annotations on the global signal and/or FSR signals (decimate factor, count vs factor^k, timestamp pattern with equal runs across index-chunk boundaries); full iteration + seeks at/around every class of timestamp + early stop; distinct = per-signal (kind, factor, count class, timestamp pattern)'
 ASSUME['C11'] = ['annotation timestamps of FSR signals are compared after rebasing by the first sample id, as reader.h documents']
 
-CHECKS['C12'] = [file_run('c12', 200, 10000, ['C12'])]
+CHECKS['C12'] = [file_run('c12', 1000, 10000, ['C12'])]
 LEVELS['C12'] = 'exploration'
 RULES['C12'] = 'case = one FSR signal with n UTC anchors (count class incl. 999/1000/1001, decimate factor, rate, drift, irregular spacing, equal times); full and partial iteration exact, 60 conversions per case against exact rational interpolation; distinct = (count class, factor, rate, first id, data, irregular, equal, drift)'
 ASSUME['C12'] = ['tolerance 1 tick + |k|*2^-50 (double interpolation), anchors exact; inverse checked only where time advances >= 1 tick per sample']
 
-CHECKS['C13'] = [file_run('c13', 150, 5000, ['C13'])]
+CHECKS['C13'] = [file_run('c13', 600, 5000, ['C13'])]
 LEVELS['C13'] = 'exploration'
 RULES['C13'] = 'case = random source/signal id sets, strings of 8 classes, user data of 10 size classes, 0-5 calls that must be rejected; definitions and user data compared through the reader and the decoder; rejected calls must cause 0 backend writes and leave the file byte-identical to the run without them; distinct = (counts, size classes, rejects)'
 ASSUME['C13'] = DECODER_ASSUMPTIONS
 
-CHECKS['C15'] = [file_run('c15', 250, 10000, ['C15'])]
+CHECKS['C15'] = [file_run('c15', 1500, 10000, ['C15'])]
 LEVELS['C15'] = 'exploration'
 RULES['C15'] = 'case = same stream written twice (omission requests toggled at random calls in run 2; constant/non-constant block patterns for <=8-bit types); every SUMMARY payload bit-identical, lengths equal, first block stored, reads checked; distinct = (type,def,pattern,toggles,partial tail,omitted count class); non-trivial = at least one block omitted'
 ASSUME['C15'] = DECODER_ASSUMPTIONS
@@ -251,7 +251,7 @@ RULES['C06'] = 'case = program (1-2 application threads, 10-120 calls mixing fsr
 ASSUME['C06'] = ['schedules are produced at synchronisation/suspension-point granularity (seeded policies), not exhaustively; instruction-level interleavings only through ThreadSanitizer on real threads',
                  'ThreadSanitizer reports whose two racing source lines only touch the polled control words flush_processed_id / quit / bk of jls_twr_s are not counted (they are neither queue nor file state; the C07 flush oracle checks the behaviour they implement)',
                  'the queue size is shrunk through the JLS_VERIF hook; with the 64 MiB default none of wrap/full/reject is reachable'] + DECODER_ASSUMPTIONS
-CHECKS['C07'] = [twr_run('c07', 400, 40000, ['C07'])]
+CHECKS['C07'] = [twr_run('c07', 1200, 40000, ['C07'])]
 LEVELS['C07'] = 'exploration'
 RULES['C07'] = 'case = flush-heavy program (a unique marker message before every checked flush; flush and close at every position; 1-2 producers; queues small enough to be full) x schedule (as C06, incl. consumer starvation with virtual-time jumps so that the 5 s send and 20 s flush time-outs are reached). At the instant jls_twr_flush returns 0 the I/O log must contain the marker write followed by an fsync; at jls_twr_close return the descriptor is closed and the file decodes and holds every accepted call (C06 oracle); an empty enabled set with unfinished threads = deadlock (reported with its wait-for state); a call exceeding 400k scheduling points = no progress. distinct = configuration x schedule signature'
 ASSUME['C07'] = ['liveness is judged in logical steps under virtual time, never by wall clock; "forever" = no enabled thread and no sleeper, or step budget exhausted',
@@ -268,7 +268,7 @@ EXHAUSTIVE['C18'] = True
 RULES['C18'] = 'cases 0-63: every length 0..4096 x every start alignment 0..7 x 7 contents (zeros, ones, ramp, 4 random) - exhaustive over length x alignment; case 64: all 8x256 table entries vs. polynomial + known answers; cases 65-68: random chunk headers through the 28-byte fast path; further cases: random 1-16 MiB buffers. Hardware path and table path (same source built with JLS_OPTIMIZE_CRC_DISABLE, linked side by side) vs. a bit-serial reference. distinct = (len mod 8, length class, alignment)'
 ASSUME['C18'] = ['exhaustive only over length x alignment for lengths <= 4096; contents are sampled', 'the reference is a bit-serial CRC anchored by the CRC-32C check value 0xE3069283']
 
-CHECKS['C20'] = [simple_run('h_stats', 'stats', 5000, 400000, ['C20'])]
+CHECKS['C20'] = [simple_run('h_stats', 'stats', 20000, 400000, ['C20'])]
 LEVELS['C20'] = 'exploration'
 RULES['C20'] = 'case = sequence (length class, shape of 6, magnitude 1e-30..1e30, f32-representable or not); compute_f64/_f32, repeated add, every split point (n<=64) or 24 random ones, random binary groupings, in-place chains; count/min/max exact, mean within 8 n eps max|x|, s within 8 n eps sum(x^2); aliasing and empty-operand identity bit-exact; distinct = (length class, shape, magnitude class, f32)'
 ASSUME['C20'] = ['reference in long double (64-bit mantissa) two-pass arithmetic']
